@@ -444,7 +444,26 @@ func C19(p *engine.Prog, r *engine.Report) {
 					}
 					n++
 					a, isA := engine.Origin(fa.X).(*ssa.Alloc)
-					r.Check(isA && a.Parent() == f, "C19-R4", uniq(r, engine.RelName(f)+"|key read from a header decoded for this message only"), p.InstrPos(fa), "local decode target", "the key is read from "+engine.PathOf(fa.X)+", which outlives the message: a request without a key member inherits the key of the previous request decoded into it")
+					okFresh := isA && a.Parent() == f
+					// ... and per batch element: a target declared outside the loop that a decoder is handed
+					// inside the loop is shared by all elements of the batch
+					if okFresh {
+						if hdr := enclosingLoopHeader(b); hdr != nil && !loopBlocks(hdr)[a.Block()] && a.Referrers() != nil {
+							for _, ref := range *a.Referrers() {
+								if !loopBlocks(hdr)[ref.Block()] {
+									continue
+								}
+								switch y := ref.(type) {
+								case *ssa.MakeInterface:
+									okFresh = false // &target passed as interface{} (json.Unmarshal(elem, &r))
+								case ssa.CallInstruction:
+									_ = y
+									okFresh = false
+								}
+							}
+						}
+					}
+					r.Check(okFresh, "C19-R4", uniq(r, engine.RelName(f)+"|key read from a header decoded for this message only"), p.InstrPos(fa), "local decode target", "the key is read from "+engine.PathOf(fa.X)+", which outlives the message: a request without a key member inherits the key of the previous request decoded into it")
 				}
 			}
 		}
